@@ -437,8 +437,6 @@ def containers_case(ctx, which):
         # self-reference through every container layout of the saver: dict with non-str keys (keys/values layout) directly,
         # through a nested list, through a tuple, a list inside a general dict inside that list, and a simple (str-key)
         # dict in a cycle with a general one
-        g1 = {0: 'zero', (1, 2): x}
-        g1[3] = g1
         g2 = {0: 'zero', (1, 2): 'tuple-key'}
         g2[3] = ['nested', g2]
         g3 = {2.5: k}
@@ -449,7 +447,12 @@ def containers_case(ctx, which):
         g4 = {1: sd, 2: [sd]}
         sd['a'] = g4
         shared = {1: 'x', 2.5: 'y'}
-        data = {'g1': g1, 'g2': g2, 'g3': g3, 'l1': l1, 'g4': g4, 'first': shared, 'second': [shared], 7: 'top level is general too'}
+        data = {'g2': g2, 'g3': g3, 'l1': l1, 'g4': g4, 'first': shared, 'second': [shared], 7: 'top level is general too'}
+    elif which == 'cyclic_general_direct':
+        # a dict with non-str keys that is its own value (separate case: an unbounded recursion here must not hide the others)
+        g1 = {0: 'zero', (1, 2): x}
+        g1[3] = g1
+        data = {'g1': g1, 7: [g1]}
         data['top'] = data
     elif which == 'exportable':
         H = hio()
@@ -501,12 +504,14 @@ def containers_case(ctx, which):
         ctx.prove(out['d']['self'] is out['d'], 'self-referential dict survives')
         ctx.prove(out['shared'][0] is out['shared'][1] is out['shared'][2][0], 'list referenced three times is one list after loading')
     if which == 'cyclic_general':
-        ctx.prove(out['g1'][3] is out['g1'], 'general dict containing itself directly survives')
         ctx.prove(out['g2'][3][1] is out['g2'], 'general dict containing itself through a list survives')
         ctx.prove(out['g3'][(4, )][1] is out['g3'] and out['g3'][(4, )][2][0] is out['g3'], 'general dict containing itself through a tuple survives')
         ctx.prove(out['l1'][1][5] is out['l1'] and out['l1'][1][(6, 7)][0] is out['l1'], 'list inside a general dict inside that list survives')
         ctx.prove(out['g4'][1]['a'] is out['g4'] and out['g4'][2][0] is out['g4'][1], 'simple dict in a cycle with a general dict survives')
-        ctx.prove(out['second'][0] is out['first'] and out['top'] is out, 'shared general dict shared; top-level general dict contains itself')
+        ctx.prove(out['second'][0] is out['first'], 'shared general dict is shared after loading')
+    if which == 'cyclic_general_direct':
+        ctx.prove(out['g1'][3] is out['g1'] and out[7][0] is out['g1'], 'general dict containing itself directly survives')
+        ctx.prove(out['top'] is out, 'top-level general dict containing itself survives')
     if which == 'arrays':
         ctx.prove(out['twice'][0] is out['twice'][1] is out['sym'], 'array referenced three times is one array after loading')
     ctx.note('roundtrips')
@@ -1090,7 +1095,7 @@ def CASES(tier, seed):
         add(f'Array[{fmt},rank3,pipe,mod=[1]]', 'array_case', sizes=[[1, 1], [1, 1], [1, 2]], mods=[1], qconjs=[1, 1, -1], fmt=fmt, pipe=True)
         add(f'Array[{fmt},rank1,mod=[2]]', 'array_case', sizes=[[1, 1, 1]], mods=[2], qconjs=[-1], fmt=fmt, shared=False)
         add(f'Array[{fmt},nocharge]', 'array_case', sizes=[[2], [3]], mods=[], qconjs=[1, -1], fmt=fmt, cplx=True)
-    for which in ('scalars', 'arrays', 'iterables', 'cyclic', 'cyclic_general', 'exportable', 'reduce:OrderedDict', 'reduce:deque', 'reduce:defaultdict',
+    for which in ('scalars', 'arrays', 'iterables', 'cyclic', 'cyclic_general', 'cyclic_general_direct', 'exportable', 'reduce:OrderedDict', 'reduce:deque', 'reduce:defaultdict',
                   'reduce:state', 'global:metaclass'):
         add(f'containers[{which}]', 'containers_case', which=which)
     add('loader_options', 'loader_options_case')
